@@ -62,6 +62,15 @@ const HELPERS = `
   }
   global.__K = function (i, o) { SITES[i] = Object.keys(o).join(','); return o }
   global.__STR = function (s) { return String(s) }
+  // JSX twins: <X /> stands for __JSX(X, null); the "element" is the tag's value itself
+  global.__JSX = function (tag) { return tag }
+  // an object literal holding every property of a build: own-key count and sum of the values
+  global.__O = function (o) {
+    const ks = Object.keys(o)
+    SITES.litKeys = String(ks.length)
+    SITES.litSum = String(ks.reduce((a, k) => a + o[k], 0))
+    return o
+  }
   global.__SITES = function () { return JSON.stringify(SITES) }
   global.__CANON = function (f) { try { return canon(f()) } catch (e) { return '!' + (e && e.name) } }
 })`
